@@ -283,7 +283,9 @@ class FStringNode:
 
 def _close_fstring_if_necessary(fstring_stack, string, line_nr, column, additional_prefix):
     for fstring_stack_index, node in enumerate(fstring_stack):
-        lstripped_string = string.lstrip()
+        # Only strip what is whitespace for Python's tokenizer, str.lstrip()
+        # would also strip e.g. vertical tabs or non-breaking spaces.
+        lstripped_string = string.lstrip(' \t\f\r\n')
         len_lstrip = len(string) - len(lstripped_string)
         if lstripped_string.startswith(node.quote):
             token = PythonToken(
